@@ -35,7 +35,7 @@ LEVEL_TEXT = ("Exploration: generated call histories (other database families, o
               "deleting single reset lines.")
 FLOORS = {"quick": 150, "thorough": 1500}
 SHARDS = {"quick": 8, "thorough": 16}
-BUDGET = {"quick": 110, "thorough": 800, "replay": 1}
+BUDGET = {"quick": 100, "thorough": 800, "replay": 1}
 
 GLOBAL_SW = ["OutputStringOn", "LogStringOn", "DumpStringOn", "ErrorStringOn", "OutputFileOn", "LogFileOn", "DumpFileOn",
              "ErrorFileOn", "ErrorOn"]
@@ -412,7 +412,8 @@ def run_step(draw, db, tier, slow_ok=True):
     slow = ex_for_db(db, True)
     if k <= 2 and fast:
         return {"op": "run", "src": "ex:" + draw(st.sampled_from(fast)), "how": how, "tags": ["example"]}
-    if k == 3 and slow and slow_ok and draw(st.integers(0, 3 if tier == "quick" else 1)) == 0:
+    # examples that take > 0.12 s (and can leave kinetic reactants that make later runs of the history slow): thorough tier only
+    if k == 3 and slow and slow_ok and tier != "quick" and draw(st.integers(0, 1)) == 0:
         return {"op": "run", "src": "ex:" + draw(st.sampled_from(slow)), "how": how, "tags": ["example"]}
     g = draw(gen_input(db))
     return {"op": "run", "text": g["text"], "how": how, "tags": g["tags"]}
@@ -792,6 +793,8 @@ def check_case(case, ctx):
         for key, val in h0["raw_names"].items():
             if key in GLOBAL_NAMES:
                 want = gnames.get(key, defaults[key])
+                if key == "DumpFileName" and has_file_opt and val in offered:
+                    continue  # DUMP -file of an earlier input renames the dump file (IPhreeqc copies it into DumpFileName): user-supplied
                 if val != want:
                     raise Violation("surviving_names", "%s after the load is %r, expected %r (user-set or default)" % (key, val, want))
             else:
